@@ -34,14 +34,14 @@ func TestC03_PKCE(t *testing.T) {
 	selfTest(t)
 	rapid.Check(t, func(rt *rapid.T) {
 		h.ClockReset()
-		enforce := rapid.SampledFrom([]string{"off", "off", "public", "all"}).Draw(rt, "enforce")
+		enforce := rapid.SampledFrom([]string{"off", "off", "public", "all", "both"}).Draw(rt, "enforce")
 		plain := rapid.Bool().Draw(rt, "plainEnabled")
 		public := rapid.Bool().Draw(rt, "publicClient")
 		store := rapid.SampledFrom([]string{"mem", "tx"}).Draw(rt, "store")
 		rtype := rapid.SampledFrom([]string{"code", "code", "code id_token", "code token"}).Draw(rt, "response_type")
 		w := h.NewWorld(h.Spec{Store: store, RefreshScopes: []string{}, Mutate: func(c *fosite.Config) {
-			c.EnforcePKCE = enforce == "all"
-			c.EnforcePKCEForPublicClients = enforce == "public"
+			c.EnforcePKCE = enforce == "all" || enforce == "both"
+			c.EnforcePKCEForPublicClients = enforce == "public" || enforce == "both"
 			c.EnablePKCEPlainChallengeMethod = plain
 		}})
 		cl := stdClient("pk", public)
@@ -79,7 +79,7 @@ func TestC03_PKCE(t *testing.T) {
 				challenge = v0
 			}
 		}
-		enforcedForClient := enforce == "all" || (enforce == "public" && public)
+		enforcedForClient := enforce == "all" || enforce == "both" || (enforce == "public" && public)
 		// the operator may switch enforcement on after the code was issued
 		enforceLater := enforce == "off" && rapid.IntRange(0, 4).Draw(rt, "enforceLater") == 0
 
